@@ -84,8 +84,8 @@ func (s *headerSpy) Hash(ctx context.Context, height int) (*bitcoin.Hash32, erro
 	return s.real.Hash(ctx, height)
 }
 func (s *headerSpy) HashHeight(hash bitcoin.Hash32) int { return s.real.HashHeight(hash) }
-func (s *headerSpy) LastHash() bitcoin.Hash32          { return s.real.LastHash() }
-func (s *headerSpy) LastTime() uint32                  { return s.real.LastTime() }
+func (s *headerSpy) LastHash() bitcoin.Hash32           { return s.real.LastHash() }
+func (s *headerSpy) LastTime() uint32                   { return s.real.LastTime() }
 func (s *headerSpy) PreviousHash(h bitcoin.Hash32) (*bitcoin.Hash32, int) {
 	return s.real.PreviousHash(h)
 }
@@ -234,19 +234,19 @@ type Options struct {
 	// ProductionRepo keeps difficulty and split protection on (the production configuration).
 	ProductionRepo bool
 	// NoNode: only build the repositories (dry script generation).
-	NoNode bool
+	NoNode      bool
 	NodeTimeout time.Duration
 }
 
 type World struct {
-	C    *core.Ctx
-	Ctx  context.Context
-	Cfg  *bitcoin_reader.Config
-	Repo *headers.Repository
-	Book *bitcoin_reader.StoragePeerRepository
-	Rec  *Recorder
-	Proc *Processor
-	TxM  *bitcoin_reader.TxManager
+	C      *core.Ctx
+	Ctx    context.Context
+	Cfg    *bitcoin_reader.Config
+	Repo   *headers.Repository
+	Book   *bitcoin_reader.StoragePeerRepository
+	Rec    *Recorder
+	Proc   *Processor
+	TxM    *bitcoin_reader.TxManager
 	txDone chan error
 
 	// NoDelay suppresses delivery delays (used while a handshake with its 3 s deadline is set up).
